@@ -156,11 +156,32 @@ def slots() -> list[dict[str, Any]]:
     return out
 
 
+def _src_of(sub) -> dict[str, str]:
+    """Source file of the installed substitute (relative to the tree under test) and its content hash."""
+    import hashlib
+    import os
+
+    try:
+        f = inspect.getsourcefile(inspect.unwrap(sub)) or ""
+    except Exception:  # noqa: BLE001
+        f = ""
+    code = getattr(sub, "__code__", None)
+    if code is not None and getattr(code, "co_filename", ""):
+        f = code.co_filename
+    root = os.environ.get("J2O_REPO", "/repo").rstrip("/") + "/"
+    rel = f[len(root):] if f.startswith(root) else f
+    try:
+        h = hashlib.sha256(open(f, "rb").read()).hexdigest()[:16]
+    except OSError:
+        h = ""
+    return {"file": rel, "hash": h}
+
+
 def census_job() -> list[dict[str, Any]]:
     res = []
     for i, r in enumerate(slots()):
         res.append({"i": i, "id": r["id"], "plugins": r["plugins"], "orig": _sig_json(r["osig"]), "sub": _sig_json(r["ssig"]),
-                    "is_method": inspect.isclass(r["tgt"]), "components": r["components"], "group": r["group"]})
+                    "is_method": inspect.isclass(r["tgt"]), "components": r["components"], "group": r["group"], "src": _src_of(r["sub"])})
     return res
 
 
@@ -495,6 +516,26 @@ def _nondefault(sig: inspect.Signature, args: tuple, kwargs: dict) -> list[tuple
             continue
         for j, v in enumerate(_alt_values(p.name, p.default, first_array)):
             forms.append(("nondefault", f"{p.name}:kw:{j}", args, {**kwargs, p.name: v}))
+    # a Python number the recorded call passes POSITIONALLY gets another value and moves to its keyword
+    # (the positional prefix in front of it stays): an argument dropped on one binding branch shows
+    names = [p.name for p in sig.parameters.values() if p.kind in (P.POSITIONAL_ONLY, P.POSITIONAL_OR_KEYWORD)]
+    for pos in range(1, len(args)):
+        v = args[pos]
+        if pos >= len(names) or isinstance(v, bool) or not isinstance(v, (int, float)):
+            continue
+        if sig.parameters[names[pos]].kind is not P.POSITIONAL_OR_KEYWORD:
+            continue
+        rest_kw = {}
+        ok = True
+        for q in range(pos + 1, len(args)):
+            if q >= len(names) or sig.parameters[names[q]].kind is not P.POSITIONAL_OR_KEYWORD:
+                ok = False
+                break
+            rest_kw[names[q]] = args[q]
+        if not ok:
+            continue
+        for j, nv in enumerate(((v + 1, v * 2 + 1) if isinstance(v, int) else (v * 2.0, v + 0.5))):
+            forms.append(("nondefault", f"{names[pos]}:moved_kw:{j}", args[:pos], {**kwargs, **rest_kw, names[pos]: nv}))
     return forms
 
 
@@ -713,7 +754,12 @@ def forms_job(components: list[str], forms_by_slot: dict[str, list[dict[str, Any
             real.sort(key=lambda t: (t[0]["np"], len(t[0]["kw"])))
             keep = real
             if len(real) > max_forms:
+                # re-spellings of the recorded call itself (same arguments, another positional / keyword split)
+                # discriminate best: each positional prefix length with the rest passed by keyword
+                respell = [x for x in real if _same_call(sig, (a, k), x[1])]
+                respell.sort(key=lambda t: (t[0]["np"], -len(t[0]["kw"])))
                 ext = [real[0], real[-1]] + sorted(real, key=lambda t: -len(t[0]["kw"]))[:2] + sorted(real, key=lambda t: -t[0]["np"])[:2]
+                ext += [x for x in respell if not any(x is e for e in ext)][: max(4, max_forms // 2)]
                 rest = [x for x in real if not any(x is e for e in ext)]
                 rng.shuffle(rest)
                 keep = ext + rest[: max_forms - len(ext)]
